@@ -676,7 +676,7 @@ loop:
 		"hooks":                hooksState(),
 		"shards":               n,
 		"notes":                m.Notes,
-		"bounds":               "input length <= 16 KiB, nesting depth <= 512",
+		"bounds":               "generated / mutated inputs <= 16 KiB, nesting depth <= 512 (C07 prefix towers <= 12000); flat families (wide lists, long statement lists, long operator chains, long tokens, many-line texts) up to about 1 MiB",
 	}
 	kh := map[string]int64{}
 	for i, k := range knowns {
